@@ -1,8 +1,8 @@
-"""C02: see corecheck.py / core_driver.py and spec/PncCore*.tla."""
+"""C06: see corecheck.py / core_driver.py and spec/PncCore*.tla."""
 import sys
 from common import main_wrap
 import corecheck
 
 if __name__ == '__main__':
     tier = sys.argv[sys.argv.index('--tier') + 1] if '--tier' in sys.argv else 'quick'
-    main_wrap(lambda: corecheck.run('C02', tier))
+    main_wrap(lambda: corecheck.run('C06', tier))
